@@ -8,7 +8,8 @@ class P(Property):
     gen_targets = ["Funfit", "WeaverFootprint", "WeaverGlue"]
 
     def units(self, tier):
-        return [WeaverUnit(("C09",), max_len=10), BigIntAbscissaeUnit()]
+        # refused requests in the middle of programs: whatever is refused leaves the object as it was (equal lengths, same series)
+        return [WeaverUnit(("C09",), max_len=10, invalid_kinds=['method', 'n_below_2', 'grid_ends', 'grid_ends_permuted', 'rule_t', 'rule_r', 'strategy', 'trunc_inverted', 'index_stop', 'fixed_not_in_x', 'interp_none']), BigIntAbscissaeUnit()]
 
 
 PROPERTY = P()
